@@ -782,13 +782,30 @@ class SI:
     def __hash__(self): return hash(self.e)
     def __bool__(self): return bool(SB(self.e != 0))
     def __repr__(self): return f"SI({self.e})"
-    def __format__(self, spec): return f"<sym:{str(self.e)[:24]}>"
+    def __format__(self, spec):
+        tok = f"<sym:{str(self.e)[:24]}>"
+        FORMATTED.setdefault(tok, []).append(self)       # so that a model of a keyed store can map f"data/{i}" back to the index term
+        return tok
     def __float__(self): raise TypeError("symbolic int has no concrete float value; use the float model")
     def __index__(self):
         v = self.concrete()
         if v is None:
             raise Unsupported(f"symbolic int used as a concrete index: {self.e}")
         return v
+
+
+FORMATTED = {}
+
+
+def unformat(token):
+    """the symbolic int that was formatted as `token` (None if unknown; Unsupported if two different terms share the token)"""
+    xs = FORMATTED.get(token)
+    if not xs:
+        return None
+    for x in xs[1:]:
+        if not x.e.eq(xs[0].e):
+            raise Unsupported(f"ambiguous formatted symbol {token}")
+    return xs[0]
 
 
 def _ipow(e, n):
